@@ -215,8 +215,15 @@ where
                 // makes sure optimistic block production yields before timeout would expire
                 duration_left.min(self.delta_block)
             };
-            let produce_slice_future =
-                produce_slice_payload(&self.txs_receiver, parent, time_for_slice);
+            // As long as ParentReady is outstanding, this slice may still have to carry
+            // a switched parent (see `apply_parent_ready`), so leave room for one.
+            let reserve_parent = !parent_ready_receiver.is_terminated();
+            let produce_slice_future = produce_slice_payload_reserving(
+                &self.txs_receiver,
+                parent,
+                time_for_slice,
+                reserve_parent,
+            );
 
             // If we have not yet received the ParentReady event, wait for it concurrently while producing the next slice.
             let (mut payload, new_duration_left) = if parent_ready_receiver.is_terminated() {
@@ -444,6 +451,22 @@ async fn produce_slice_payload<T>(
 where
     T: TransactionNetwork,
 {
+    produce_slice_payload_reserving(txs_receiver, parent, duration_left, false).await
+}
+
+/// Like [`produce_slice_payload`], optionally leaving room for a parent to be set later.
+///
+/// With `reserve_parent`, a slice produced without a parent is sized as if it carried one,
+/// so that switching its parent afterwards cannot push it over the slice size limit.
+async fn produce_slice_payload_reserving<T>(
+    txs_receiver: &T,
+    parent: Option<BlockId>,
+    duration_left: Duration,
+    reserve_parent: bool,
+) -> (SlicePayload, Duration)
+where
+    T: TransactionNetwork,
+{
     let start_time = Instant::now();
 
     // each slice should be able hold at least 1 transaction
@@ -452,7 +475,12 @@ where
 
     // reserve space for: parent info, and
     // 8 bytes for SlicePayload::data length
-    let parent_encoded_len = wincode::serialized_size(&parent)
+    let sized_parent = if reserve_parent && parent.is_none() {
+        Some((Slot::genesis(), GENESIS_BLOCK_HASH))
+    } else {
+        parent.clone()
+    };
+    let parent_encoded_len = wincode::serialized_size(&sized_parent)
         .expect("computing serialized size of parent should not fail")
         as usize;
     let buffer_space = MAX_DATA_PER_SLICE - parent_encoded_len - 8;
